@@ -57,5 +57,10 @@ class RaiseObserver:
         if not fn.startswith(self.roots):
             return
         self._last = exc
-        k = (type(exc).__name__, os.path.relpath(fn, common.REPO), code.co_qualname)
+        try:
+            k = (type(exc).__name__, os.path.relpath(fn, common.REPO), code.co_qualname)
+        except RecursionError:
+            # raised at the recursion limit: the observer must not turn the
+            # program's own RecursionError into a crash of the monitor
+            k = (type(exc).__name__, fn, code.co_qualname)
         self.origins[k] = self.origins.get(k, 0) + 1
